@@ -260,7 +260,7 @@ pub struct LayerA {
     pub reference: Outcome,
 }
 
-pub fn check_c20a(c: &Concrete, preamble: &str) -> LayerA {
+pub fn check_c20a(c: &Concrete, preamble: &str, std_free: bool) -> LayerA {
     let mut vs = Vec::new();
     let out = execute(c);
     // reference bytes B(s): same scenario, fault-free accepting sink
@@ -331,6 +331,21 @@ pub fn check_c20a(c: &Concrete, preamble: &str) -> LayerA {
             vs.extend(check_require("C20", &module, &reference.sink_bytes, &alt.sink_bytes, preamble));
         } else {
             vs.extend(check_require("C20", &module, &alt.sink_bytes, &reference.sink_bytes, preamble));
+        }
+    }
+    if std_free {
+        let mut flipped = cref.clone();
+        flipped.no_std = !c.no_std;
+        let fo = execute(&flipped);
+        let same = matches!((&reference.result, &fo.result), (ResultObs::Ok, ResultObs::Ok) | (ResultObs::Err(_), ResultObs::Err(_)));
+        if !same {
+            let word = |o: &Outcome| if matches!(o.result, ResultObs::Ok) { "accepted" } else { "rejected" };
+            vs.push(v(
+                "C20",
+                "no-std",
+                "verdict",
+                format!("a program that does not use the standard library is {} with --no-std={} and {} with --no-std={}", word(&reference), c.no_std, word(&fo), flipped.no_std),
+            ));
         }
     }
     LayerA { violations: vs, main: out, reference }
